@@ -1509,8 +1509,14 @@ pub fn registry() -> Vec<PropDef> {
                     source: Source::Systematic { strategy: hangup_strategy, cases: cases_fn!(20, 12) },
                     oracle: c07_oracle,
                 },
+                // more stream tasks parked at the last sender's drop than threads can provide
+                Part {
+                    name: "crowd_of_parked_stream_tasks",
+                    source: Source::Random { strategy: c07_crowd_strategy, cases: cases_fn!(1000, 20000) },
+                    oracle: c14_seq_oracle,
+                },
             ],
-            rule: "traffic profile with cloned/dropped senders and every receive entry point; oracle = per end report: no sender alive during the whole call, no accepted value undelivered and not in flight, end stable afterwards; non-trivial = an end report overlaps the last accepted send or the last sender drop",
+            rule: "traffic profile with cloned/dropped senders and every receive entry point; oracle = per end report: no sender alive during the whole call, no accepted value undelivered and not in flight, end stable afterwards; non-trivial = an end report overlaps the last accepted send or the last sender drop. Part crowd_of_parked_stream_tasks: sequential histories in which 6..13 stream tasks (shared handles and separate streams) are parked on an empty futures queue when the last sender is dropped or unsubscribed; oracle = every one of them has been notified when that call returns; non-trivial = a task parked",
             assumptions: vec![SC_ASSUME, SAMPLE_ASSUME],
         },
         PropDef {
@@ -1609,10 +1615,14 @@ pub fn registry() -> Vec<PropDef> {
     ]
 }
 
+fn c07_crowd_strategy(_t: Tier) -> BoxedStrategy<Scenario> {
+    gen::crowd_scenario(seq_opts(), true)
+}
+
 fn c14_seq_strategy(t: Tier) -> BoxedStrategy<Scenario> {
     prop_oneof![
         8 => c15_random(t),
-        1 => gen::crowd_scenario(seq_opts()),
+        1 => gen::crowd_scenario(seq_opts(), false),
     ]
     .boxed()
 }
